@@ -547,12 +547,10 @@ fn gen_definition(rng: &mut Rng, cx: &mut Ctx) -> Value {
             3 if !cx.targets.is_empty() && cx.sw.nullable && rng.chance(1, 3) => {
                 // a definition that is nothing but a nullable wrapper of another
                 // definition (possibly of itself, possibly of another such wrapper)
+                // (anyOf, not oneOf: the target may itself admit null, and then `null`
+                // would match both alternatives of a oneOf)
                 let t = rng.pick(&cx.targets).clone();
-                return if rng.chance(1, 2) {
-                    json!({"anyOf": [r(&t), {"type": "null"}]})
-                } else {
-                    json!({"oneOf": [r(&t), {"type": "null"}]})
-                };
+                return json!({"anyOf": [r(&t), {"type": "null"}]});
             }
             3 if !cx.targets.is_empty() => {
                 // newtype alias
